@@ -546,13 +546,17 @@ class StartStageHandler(
                 for msg in messages_to_push:
                     txn.push_message(msg)
         except ConcurrencyError:
-            # This shouldn't happen since we already claimed the stage,
-            # but handle it gracefully just in case.
+            # Another writer (a buffered persistent signal, join tracking of a
+            # late branch) bumped the version between the claim commit and
+            # this plan commit. The stage is RUNNING with _plan_pending set:
+            # swallowing the conflict would leave it half-started with no
+            # message to continue. Re-raise so the message is retried; the
+            # retry sees RUNNING + _plan_pending and resumes planning.
             logger.warning(
-                "Unexpected ConcurrencyError after claiming stage %s",
+                "ConcurrencyError after claiming stage %s - plan commit will be retried",
                 stage.name,
             )
-            return
+            raise
 
         logger.info("Started stage %s (%s)", stage.name, stage.id)
 
